@@ -970,6 +970,11 @@ def evaluate(case, native):
             return True, (f'evaluate_and_collect_all over {n} tours (1 of the solution + {n - 1} fresh) and {nj} jobs, one entry per {"job" if case["fold_jobs"] else "tour"}: '
                           f'costs {native["costs"]}, the minima over the other dimension are {want}')
         return False, 'one entry per job / tour with the minimum over the other dimension'
+    if kind == 'rosomaxa_phase':
+        if native['size'] > 0 and any(n == 0 for n in native['selected']):
+            return True, (f'self-organising population with {native["size"]} individuals (configured selection size {case["selection_size"]}) selects {native["selected"]} individuals after a '
+                          f'generation tick with speed {case["speed"]} (phase now {native["phase"]}): nothing is selected from a non-empty population')
+        return False, 'selection is non-empty'
     if kind == 'statistic_sum':
         for k_ in ('cost', 'distance', 'duration', 'driving', 'serving', 'waiting', 'break_time', 'commuting', 'parking'):
             want = case['a'][k_] + case['b'][k_]
